@@ -241,6 +241,25 @@ def extract_skeleton(repo):
     for s in fn.body:
         stmt(s, False, None)
 
+    # `scan`: only components that do not exist yet; `scanall`: the whole chain up to the directory holding the root
+    if "scan" in toks:
+        dge = None
+        for cls in tree.body:
+            if isinstance(cls, ast.ClassDef) and cls.name == "FileCache":
+                for n in cls.body:
+                    if isinstance(n, ast.FunctionDef) and n.name == "_dirs_gaining_entry":
+                        dge = n
+        if dge is None:
+            raise SkeletonError("_dirs_gaining_entry not found")
+        args = [a.arg for a in dge.args.args]
+        src_dge = ast.unparse(dge)
+        if args == ["path"] and "root_path" not in src_dge and "while not os.path.exists(path)" in src_dge:
+            pass
+        elif args == ["self", "path"] and "self.root_path" in src_dge and "while path != root" in src_dge:
+            toks[toks.index("scan")] = "scanall"
+        else:
+            raise SkeletonError("_dirs_gaining_entry has an unrecognised shape")
+
     # update_file must wait for the worker: `future.result()` as a statement after the lock block
     waits = False
     for cls in tree.body:
@@ -276,7 +295,15 @@ class _Kill(BaseException):
 class Recorder:
     """system-call level trace of what klongpy.db.file_cache does under `root`"""
 
-    def __init__(self, root, bufsize=None, kill_at=None, snapshot=True):
+    def __init__(self, root, bufsize=None, kill_at=None, snapshot=True, fault_at=None, park_at=None):
+        import threading
+        self.fault_at = fault_at     # raise one transient OSError instead of performing op number fault_at
+        self.fault_fired = False
+        self.park_at = park_at       # the thread about to perform op number park_at waits until released
+        self.parked = threading.Event()
+        self.resume = threading.Event()
+        self.park_done = False
+        self.park_timeout = False
         self.root = os.path.realpath(root)
         self.bufsize = bufsize
         self.ops = []            # wire strings
@@ -296,9 +323,21 @@ class Recorder:
         return os.path.relpath(p, self.root)
 
     # every operation: boundary first (kill point), then perform, then record + snapshot
-    def boundary(self):
-        if self.kill_at is not None and len(self.ops) == self.kill_at:
+    def boundary(self, faultable=True):
+        n = len(self.ops)
+        if self.kill_at is not None and n == self.kill_at:
             os._exit(17)
+        if not faultable:
+            return
+        if self.park_at is not None and n >= self.park_at and not self.park_done:
+            self.park_done = True
+            self.parked.set()
+            if not self.resume.wait(30):
+                self.park_timeout = True
+        if self.fault_at is not None and n >= self.fault_at and not self.fault_fired:
+            import errno
+            self.fault_fired = True
+            raise OSError(errno.EIO, "injected transient I/O error (verification harness)")
 
     def done(self, op):
         self.ops.append(op)
@@ -306,7 +345,7 @@ class Recorder:
             self.snaps.append(listing(self.root))
 
     def marker(self, op):
-        self.boundary()
+        self.boundary(faultable=False)
         self.done(op)
 
     def install(self):
@@ -325,7 +364,7 @@ class Recorder:
 
             def close(self):
                 if not self.closed:
-                    rec.boundary()
+                    rec.boundary(faultable=False)
                     fd = self.fileno()
                     super().close()
                     rec.fd_file.pop(fd, None)
@@ -583,27 +622,32 @@ def parse_image(s):
 
 
 def ghost(ops):
-    """completed sets (last value per key, as pickled hex), the key in progress and the dirty keys (interrupted
-    by a process kill, not rewritten by a completed set since), from the begin/ret/kill markers"""
-    cur, done = None, {}
+    """completed sets (last value per key, as pickled hex), the keys in progress and the dirty keys (their set was
+    abandoned — process kill or exception — and no set of them has completed since), from the markers
+    begin:<key>:<value> / ret (or ret:<key> when sets overlap) / kill"""
+    curs, done = {}, {}
     HISTORY.clear()
     DIRTY.clear()
+    INPROG.clear()
     for o in ops:
         if o.startswith("begin:"):
             _, k, v = o.split(":")
-            cur = (unwpath(k), v)
-        elif o == "ret" and cur is not None:
-            HISTORY.setdefault(cur[0], []).append(cur[1])
-            done[cur[0]] = cur[1]
-            DIRTY.discard(cur[0])
-            cur = None
+            curs[unwpath(k)] = v
+        elif (o == "ret" or o.startswith("ret:")) and curs:
+            k = unwpath(o.split(":")[1]) if ":" in o else list(curs)[-1]
+            if k in curs:
+                v = curs.pop(k)
+                HISTORY.setdefault(k, []).append(v)
+                done[k] = v
+                DIRTY.discard(k)
         elif o == "kill":
-            if cur is not None:
-                DIRTY.add(cur[0])
-            cur = None
-    return (cur[0] if cur else None), done
+            DIRTY.update(curs)
+            curs.clear()
+    INPROG.update(curs)
+    return (list(curs)[-1] if curs else None), done
 
 
+INPROG = set()    # filled by ghost()
 DIRTY = set()     # filled by ghost()
 HISTORY = {}      # key -> all completed values (pickled hex), oldest first; filled by ghost()
 
@@ -783,20 +827,31 @@ def full(R, k):
     return f"{R}/{k}" if R else k
 
 
-def real_run(ctx, sets, bufsize, kill_at=None, root=None, snapshot=True, R=""):
+REOPEN = "<reopen>"
+
+
+def real_run(ctx, sets, bufsize, kill_at=None, root=None, snapshot=True, R="", fault_at=None):
     """run the actions on the real store under the recorder; `root` is the (existing) base directory the trace is
     relative to, the store lives at root/R (R may name directories that do not exist yet) and is opened INSIDE
-    the recorded region.  An action is (key, value) = a set, or (key, GET) = a get (no marker, result ignored).
-    Returns (recorder, exception or None)"""
+    the recorded region.  Actions: (key, value) = a set; (key, GET) = a get (no marker, result ignored);
+    (REOPEN, None) = drop the store object and open a new one.  With fault_at, one transient OSError is raised
+    instead of the file-system operation number fault_at; a set that raises after the fault is recorded as
+    `kill` (the set is abandoned and promises nothing) and the run goes on.
+    Returns (recorder, unexpected exception or None)"""
     from klongpy.db.sys_fn_kvs import KeyValueStorage
     from klongpy.db.helpers import serialize_obj
-    rec = Recorder(root, bufsize, kill_at=kill_at, snapshot=snapshot)
+    rec = Recorder(root, bufsize, kill_at=kill_at, snapshot=snapshot, fault_at=fault_at)
     rec.install()
     store = None
     err = None
+    where = os.path.join(root, R) if R else root
     try:
-        store = KeyValueStorage(os.path.join(root, R) if R else root)
+        store = KeyValueStorage(where)
         for k, v in sets:
+            if k == REOPEN:
+                store.cache.executor.shutdown(wait=True)
+                store = KeyValueStorage(where)
+                continue
             if v == GET:
                 try:
                     store.get(k)
@@ -805,7 +860,14 @@ def real_run(ctx, sets, bufsize, kill_at=None, root=None, snapshot=True, R=""):
                 continue
             v = expand(v)
             rec.marker(f"begin:{wpath(full(R, k))}:{serialize_obj(v).hex()}")
-            store.set(k, v)
+            try:
+                store.set(k, v)
+            except Exception as e:                      # noqa
+                if not rec.fault_fired:
+                    raise
+                rec.raised = getattr(rec, "raised", 0) + 1
+                rec.marker("kill")                      # the set raised: abandoned, nothing promised
+                continue
             rec.marker("ret")
     except Exception as e:                             # noqa
         err = e
@@ -825,6 +887,14 @@ def check_images(ctx, drv, ops_prefix, sets_json, bufsize, scratch, cap, label, 
         # image space of the rest of the sequence
         ctx.bump("prefixes-skipped-after-failures")
         return 0
+    # keys read back on every image: the fixed universe plus every key this history has touched
+    keys = list(KEYS)
+    for o in ops_prefix:
+        if o.startswith("begin:"):
+            kk = unwpath(o.split(":")[1])
+            kk = kk[len(R) + 1:] if R and kk.startswith(R + "/") else kk
+            if kk not in keys:
+                keys.append(kk)
     if big:
         # large writes: the image space is sampled by the Python simulator (same space as the model's `crash`)
         items = py_sample_images(ops_prefix, ctx.rng, 8)
@@ -837,7 +907,7 @@ def check_images(ctx, drv, ops_prefix, sets_json, bufsize, scratch, cap, label, 
         else:
             idx = sorted(set([0, n - 1] + [ctx.rng.randrange(n) for _ in range(cap)]))
             ctx.bump("prefixes-with-sampled-images")
-        keyw = ",".join(wpath(full(R, k)) for k in KEYS)
+        keyw = ",".join(wpath(full(R, k)) for k in keys)
         reply = drv.ask(f"images idx={','.join(map(str, idx))} keys={keyw}")
         if not reply.startswith("imgs="):
             raise common.Infra("driver: " + reply[:200])
@@ -860,6 +930,11 @@ def check_images(ctx, drv, ops_prefix, sets_json, bufsize, scratch, cap, label, 
             items = ctx.rng.sample(items, cap)
     seen = set()
     cur, done = ghost(ops_prefix)
+    cls = (":" + extra["class"]) if extra and extra.get("class") else ""
+    if extra and extra.get("parked_key"):
+        cls_of = lambda k: cls + ("-parked" if k == extra["parked_key"] else "-running")
+    else:
+        cls_of = lambda k: cls
     from klongpy.db.helpers import deserialize_obj
     for item in items:
         imgkey = item.split(";rec=")[0]
@@ -871,14 +946,14 @@ def check_images(ctx, drv, ops_prefix, sets_json, bufsize, scratch, cap, label, 
             rec = None
         base = os.path.join(scratch, "img")
         materialise(base, img)
-        got = read_store(os.path.join(base, R) if R else base, KEYS)
+        got = read_store(os.path.join(base, R) if R else base, keys)
         case = dict(extra or {}, kind=(extra or {}).get("kind", "crash-point"), sets=sets_json, bufsize=bufsize,
                     root=R, prefix=len(ops_prefix),
                     last_op=_short(ops_prefix[-1], 200) if ops_prefix else None, image=_short(imgkey, 400),
                     in_progress=cur)
         ctx.count((tuple(ops_prefix), imgkey))
         ctx.bump("images")
-        for k0 in KEYS:
+        for k0 in keys:
             kind, val, raw = got[k0]
             k = full(R, k0)
             # ---- tie: model recover vs the bytes the real cache reads
@@ -886,12 +961,12 @@ def check_images(ctx, drv, ops_prefix, sets_json, bufsize, scratch, cap, label, 
                 ctx.mismatch("Klong.C17.recover vs FileCache.get_file on a crash image", dict(case, key=k),
                              rec.get(k), raw)
             # ---- property oracle (needs no model: completed sets come from the begin/ret markers)
-            if k in DIRTY and k != cur:
+            if k in DIRTY and k not in INPROG:
                 ctx.bump("dirty-key-skipped")      # its set was killed and no set of it has completed since
                 continue
-            if k == cur:
+            if k in INPROG:
                 old = done.get(k)
-                new = [o for o in ops_prefix if o.startswith("begin:")][-1].split(":")[2]
+                new = [o for o in ops_prefix if o.startswith("begin:" + wpath(k) + ":")][-1].split(":")[2]
                 ctx.bump("in-progress-key:" + ("raises" if kind == "raises" else "undefined" if kind == "undef"
                                                else "new" if raw == new else "old" if raw == old else "other"))
                 continue
@@ -899,25 +974,33 @@ def check_images(ctx, drv, ops_prefix, sets_json, bufsize, scratch, cap, label, 
                 want = canon(deserialize_obj(bytes.fromhex(done[k])))
                 wants = _short(want) if isinstance(want, str) else want
                 if kind == "undef":
-                    ctx.oracle_fail("kvs:crash:completed-key-missing", dict(case, key=k), wants, ":undefined",
+                    ctx.oracle_fail("kvs:crash:completed-key-missing" + cls_of(k), dict(case, key=k), wants, ":undefined",
                                     "a set that had returned is lost by a crash (its directory entry was never synced)")
                 elif raw in HISTORY.get(k, [])[:-1] and raw != done[k]:
-                    ctx.oracle_fail("kvs:crash:completed-key-reads-old-value", dict(case, key=k), wants, _short(f"{kind}:{val}"),
+                    ctx.oracle_fail("kvs:crash:completed-key-reads-old-value" + cls_of(k), dict(case, key=k), wants, _short(f"{kind}:{val}"),
                                     "a set that had returned is undone by a crash: the store reads the PREVIOUS value "
                                     "(something the set relied on — a rename, or bytes left by a killed writer — "
                                     "was never synced)")
                 elif kind == "raises" or val != want:
-                    ctx.oracle_fail("kvs:crash:completed-key-corrupt", dict(case, key=k), wants,
+                    ctx.oracle_fail("kvs:crash:completed-key-corrupt" + cls_of(k), dict(case, key=k), wants,
                                     f"{_short(f'{kind}:{val}')} raw={raw[:80]} ({len(raw) // 2} bytes)",
                                     "a completed key reads back wrong on a crash image (its data was not synced, or "
                                     "the set in progress wrote to this key's file)"
                                     + (f"; set in progress: {cur!r}" if cur else ""))
             else:
                 if kind != "undef":
-                    ctx.oracle_fail("kvs:crash:other-key-fails", dict(case, key=k), ":undefined", f"{kind}:{val}",
+                    ctx.oracle_fail("kvs:crash:other-key-fails" + cls_of(k), dict(case, key=k), ":undefined", f"{kind}:{val}",
                                     "a key that was never set must read :undefined on every crash image")
     ctx.bump(f"prefix-ends-in:{ops_prefix[-1].split(':')[0] if ops_prefix else 'empty'}")
     return len(seen)
+
+
+def sk_for(sk, R):
+    """the extracted skeleton, with the store root's depth for the whole-chain variant of _dirs_gaining_entry"""
+    if sk is None:
+        return None
+    depth = len(R.split("/")) if R else 0
+    return [f"scanall:{depth}" if t == "scanall" else t for t in sk]
 
 
 def explore(ctx, drv, ops, snaps, actions, sets_json, bufsize, sk, flag, eff_buf, cap, label, top, big=False, R="",
@@ -949,7 +1032,7 @@ def explore(ctx, drv, ops, snaps, actions, sets_json, bufsize, sk, flag, eff_buf
             rops = ops[i:seg_end + 1]
             if sk is not None and k is not None and rops[-1] == "ret":
                 val = serialize_obj(expand(v)).hex()
-                m = drv.ask(f"setops sk={','.join(sk)} flag={1 if flag else 0} buf={eff_buf} k={wpath(full(R, k))} v={val}")
+                m = drv.ask(f"setops sk={','.join(sk_for(sk, R))} flag={1 if flag else 0} buf={eff_buf} k={wpath(full(R, k))} v={val}")
                 mops = m[4:].split(";") if m.startswith("ops=") else [m]
                 if mops != rops:
                     ctx.mismatch("Klong.C17.setOps(skeleton) vs recorded system-call trace of KeyValueStorage.set",
@@ -986,6 +1069,7 @@ def run_sequence(ctx, drv, sets, bufsize, sk, flag, cap, label="seq", R=""):
     os.makedirs(root)
     sets_json = [[k, v] for k, v in sets]
     ctx._c17_base = len(ctx.oracle_failures)
+    known0 = len(ctx.known_hits)
     big = any(len(serialize_obj(expand(v))) > 3000 for _, v in sets if v != GET)
     try:
         rec, err = real_run(ctx, sets, bufsize, root=root, R=R)
@@ -1006,7 +1090,8 @@ def run_sequence(ctx, drv, sets, bufsize, sk, flag, cap, label="seq", R=""):
                 # large traces are not sent to the kernel; the compiled model's WF verdict is reported as a broken tie
                 ctx.mismatch("Klong.C17.WF (compiled model) of the recorded trace of a large-value sequence", case0,
                              "WF", "not WF")
-        return dict(ops=ops, sets=[(full(R, k), v) for k, v in sets if v != GET], buf=eff_buf, wf=wf, big=big)
+        return dict(ops=ops, sets=[(full(R, k), v) for k, v in sets if v != GET], buf=eff_buf, wf=wf, big=big,
+                    sk=sk_for(sk, R), known=len(ctx.known_hits) > known0)
     finally:
         shutil.rmtree(top, ignore_errors=True)
 
@@ -1042,7 +1127,8 @@ def kill_history(ctx, drv, sets1, phase2, bufsize, sk, flag, cap, boundaries=Non
                     os._exit(18)
             _, status = os.waitpid(pid, 0)
             extra = dict(kind="kill-history", sets1=[[k, v] for k, v in sets1], phase2=[[k, v] for k, v in phase2],
-                         killed_before=_short(ops1[b], 120), boundary=b)
+                         killed_before=_short(ops1[b], 120), boundary=b, **{"class": "after-kill"})
+            known0 = len(ctx.known_hits)
             if os.waitstatus_to_exitcode(status) != 17:
                 ctx.mismatch("process-kill child did not reach the boundary", extra, 17, os.waitstatus_to_exitcode(status))
                 continue
@@ -1058,9 +1144,138 @@ def kill_history(ctx, drv, sets1, phase2, bufsize, sk, flag, cap, boundaries=Non
                          eff_buf, cap, "kill-history", top, R=R, extra=extra, images_from=b + 1)
             ctx.bump("kill-histories")
             ctx.bump("kill-histories-wf" if wf else "kill-histories-not-wf")
-            runs.append(dict(ops=ops, sets=None, buf=eff_buf, wf=wf, big=False))
+            runs.append(dict(ops=ops, sets=None, buf=eff_buf, wf=wf, big=False, known=len(ctx.known_hits) > known0))
             shutil.rmtree(base, ignore_errors=True)
         return runs
+    finally:
+        shutil.rmtree(top, ignore_errors=True)
+
+
+def fault_history(ctx, drv, sets0, target, follow, bufsize, sk, flag, cap, R="", only=None):
+    """error paths: the set `target` (last of sets0 + [target]) gets ONE transient OSError at each of its
+    file-system operations in turn; the same set is then retried — on the same store object, and on a new store
+    object — followed by `follow`; crash images are explored from the fault on.  A set that raised promises
+    nothing; a set that RETURNED must be durable."""
+    top = ctx.mkdtemp()
+    runs = []
+    try:
+        ref = os.path.join(top, "ref")
+        os.makedirs(ref)
+        rec0, err = real_run(ctx, sets0 + [target], bufsize, root=ref, R=R)
+        if err is not None:
+            ctx.oracle_fail(f"kvs:set:raises:{type(err).__name__}", dict(kind="fault-history", sets=sets0 + [target]),
+                            "set succeeds", repr(err))
+            return runs
+        ops0 = rec0.ops
+        eff_buf = bufsize if bufsize is not None else (rec0.default_bufsize or io.DEFAULT_BUFFER_SIZE)
+        last_begin = max(i for i, o in enumerate(ops0) if o.startswith("begin:"))
+        points = [i for i in range(last_begin + 1, len(ops0)) if ops0[i].split(":")[0] not in ("close", "ret", "begin")]
+        for b in points:
+            for mode in ("same-store", "new-store"):
+                if only is not None and (b, mode) != tuple(only):
+                    continue
+                ctx._c17_base = len(ctx.oracle_failures)
+                known0 = len(ctx.known_hits)
+                base = os.path.join(top, f"f{b}{mode[0]}")
+                os.makedirs(base)
+                retry = [target] if mode == "same-store" else [(REOPEN, None), target]
+                actions = sets0 + [target] + retry + follow
+                extra = dict(kind="fault-history", sets0=[[k, v] for k, v in sets0], target=list(target),
+                             follow=[[k, v] for k, v in follow], fault_before=_short(ops0[b], 120), boundary=b, mode=mode,
+                             **{"class": "after-fault-" + mode})
+                rec, err = real_run(ctx, actions, bufsize, root=base, R=R, fault_at=b)
+                if err is not None or not rec.fault_fired:
+                    ctx.oracle_fail(f"kvs:fault-history:raises:{type(err).__name__}", extra,
+                                    "only the injected error is raised, once", repr(err))
+                    continue
+                wf = explore(ctx, drv, rec.ops, rec.snaps, [(k, v) for k, v in actions if k != REOPEN],
+                             [[k, v] for k, v in actions], bufsize, sk, flag, eff_buf, cap, "fault-history", top, R=R,
+                             extra=extra, images_from=b + 1)
+                ctx.bump("fault-histories")
+                ctx.bump(f"fault-retry-{mode}:" + ("returned" if getattr(rec, "raised", 0) < 2 else "raised-again"))
+                runs.append(dict(ops=rec.ops, sets=None, buf=eff_buf, wf=wf, big=False,
+                                 known=len(ctx.known_hits) > known0))
+                shutil.rmtree(base, ignore_errors=True)
+        return runs
+    finally:
+        shutil.rmtree(top, ignore_errors=True)
+
+
+def schedule_history(ctx, sets0, A, B, bufsize, cap, R="", only=None):
+    """two-thread schedules at file-system-call granularity: after sets0, set A runs in its own thread and is
+    parked just before each of its file-system operations in turn while set B (another key) runs to completion
+    in the main thread; then A is released.  Crash images (Python simulator — the Lean machine is the
+    single-writer one) are read back after B returned and after both returned: a set that has returned is
+    durable whatever the other thread was doing."""
+    import threading
+    from klongpy.db.sys_fn_kvs import KeyValueStorage
+    from klongpy.db.helpers import serialize_obj
+    top = ctx.mkdtemp()
+    try:
+        ref = os.path.join(top, "ref")
+        os.makedirs(ref)
+        rec0, err = real_run(ctx, sets0 + [A], bufsize, root=ref, R=R, snapshot=False)
+        if err is not None:
+            return
+        ops0 = rec0.ops
+        last_begin = max(i for i, o in enumerate(ops0) if o.startswith("begin:"))
+        points = [i for i in range(last_begin + 1, len(ops0)) if ops0[i].split(":")[0] not in ("close", "ret", "begin")]
+        for b in points:
+            if only is not None and b != only:
+                continue
+            ctx._c17_base = len(ctx.oracle_failures)
+            base = os.path.join(top, f"s{b}")
+            os.makedirs(base)
+            extra = dict(kind="schedule", sets0=[[k, v] for k, v in sets0], A=list(A), B=list(B),
+                         parked_before=_short(ops0[b], 120), boundary=b, parked_key=full(R, A[0]),
+                         **{"class": "concurrent"})
+            rec = Recorder(base, bufsize, snapshot=False, park_at=b)
+            rec.install()
+            store = None
+            errs = []
+            try:
+                store = KeyValueStorage(os.path.join(base, R) if R else base)
+                for k, v in sets0:
+                    rec.marker(f"begin:{wpath(full(R, k))}:{serialize_obj(expand(v)).hex()}")
+                    store.set(k, expand(v))
+                    rec.marker(f"ret:{wpath(full(R, k))}")
+
+                def run_a():
+                    try:
+                        rec.marker(f"begin:{wpath(full(R, A[0]))}:{serialize_obj(expand(A[1])).hex()}")
+                        store.set(A[0], expand(A[1]))
+                        rec.marker(f"ret:{wpath(full(R, A[0]))}")
+                    except Exception as e:              # noqa
+                        errs.append(e)
+                ta = threading.Thread(target=run_a, daemon=True)
+                ta.start()
+                if not rec.parked.wait(30):
+                    errs.append(TimeoutError("set A never reached the parking point"))
+                try:
+                    rec.marker(f"begin:{wpath(full(R, B[0]))}:{serialize_obj(expand(B[1])).hex()}")
+                    store.set(B[0], expand(B[1]))
+                    rec.marker(f"ret:{wpath(full(R, B[0]))}")
+                except Exception as e:                  # noqa
+                    errs.append(e)
+                after_b = len(rec.ops)
+                rec.resume.set()
+                ta.join(30)
+                if ta.is_alive() or rec.park_timeout:
+                    errs.append(TimeoutError("set A did not finish after being released"))
+            finally:
+                rec.resume.set()
+                if store is not None:
+                    store.cache.executor.shutdown(wait=True)
+                rec.uninstall()
+            if errs:
+                ctx.oracle_fail(f"kvs:schedule:raises:{type(errs[0]).__name__}", extra,
+                                "both concurrent sets of different keys return", repr(errs[0]))
+                continue
+            sets_json = extra["sets0"] + [["<A>"] + extra["A"], ["<B while A parked>"] + extra["B"]]
+            for upto in (after_b, len(rec.ops)):
+                check_images(ctx, None, rec.ops[:upto], sets_json, bufsize, top, cap, "schedule", R=R, extra=extra)
+            ctx.bump("schedules")
+            shutil.rmtree(base, ignore_errors=True)
     finally:
         shutil.rmtree(top, ignore_errors=True)
 
@@ -1090,7 +1305,7 @@ def lean_op(o):
     return f".{name} {unp(p[1])}"
 
 
-SK_LEAN = {"scan": ".scanNew", "makedirs": ".makedirs", "open": ".openWb", "write": ".write", "flush": ".flush false",
+SK_LEAN = {"scan": ".scanNew none", "makedirs": ".makedirs", "open": ".openWb", "write": ".write", "flush": ".flush false",
            "flush?": ".flush true", "fsync": ".fsync false", "fsync?": ".fsync true", "close": ".close",
            "fsyncnew": ".fsyncNew false", "fsyncnew?": ".fsyncNew true"}
 
@@ -1100,19 +1315,23 @@ def kernel_obligations(ctx, runs, sk, flag):
     from klongpy.db.helpers import serialize_obj
     lines = ["import Klong.Props.C17Gen", "open Klong.C17", "set_option maxRecDepth 100000", ""]
     names = {}
-    skl = "[" + ", ".join(SK_LEAN[t] for t in sk) + "]" if sk is not None else None
+    def sk_lean(toks):
+        return "[" + ", ".join(f".scanNew (some {t.split(':')[1]})" if t.startswith("scanall:") else SK_LEAN[t]
+                               for t in toks) + "]"
     fl = "true" if flag else "false"
     if sk is not None:
-        # the extracted skeleton is the one `fixed_write_path_wf` / `kvs_crash_safe` are proved for
-        names[len(lines) + 1] = "extracted skeleton of _write_file = skFixed and use_fsync = true (scope of kvs_crash_safe)"
-        lines.append(f"example : (({skl} : List Sk), {fl}) = (skFixed, true) := by decide")
+        # the extracted skeleton is one `fixed_write_path_wf` / `kvs_crash_safe` are proved for
+        kind = "some 0" if "scanall" in sk else "none"
+        names[len(lines) + 1] = "extracted skeleton of _write_file = skFixedOf _ and use_fsync = true (scope of kvs_crash_safe)"
+        lines.append(f"example : (({sk_lean(sk_for(sk, ''))} : List Sk), {fl}) = (skFixedOf ({kind}), true) := by decide")
     allkeys = sorted({k for r in runs if r.get("sets") for k, _ in r["sets"]})
     names[len(lines) + 1] = "ValidKeys (keys used by this run) (hypothesis of kvs_crash_safe)"
     lines.append(f"example : ValidKeys [{', '.join(lpath(k) for k in allkeys)}] := by decide")
     for i, r in enumerate(runs):
         lops = [lean_op(o) for o in r["ops"]]
         model = None
-        if sk is not None and r.get("sets") is not None:
+        if r.get("sk") is not None and r.get("sets") is not None:
+            skl = sk_lean(r["sk"])
             sets = "[" + ", ".join(f"({lpath(k)}, {lean_bytes(serialize_obj(expand(v)).hex())})" for k, v in r["sets"]) + "]"
             model = f"traceOf .strict {skl} {fl} {r['buf']} init {sets}"
         if None in lops:
@@ -1368,9 +1587,29 @@ def run(ctx):
             v1, v2 = gen_value(ctx.rng), gen_value(ctx.rng)
             sets1 = gen_sets(ctx.rng, ctx.rng.randrange(0, 2), keys) + [(k, v1), (k, v2)]
             phase2 = [(k, GET), (k, v2)] + gen_sets(ctx.rng, ctx.rng.randrange(0, 2), keys[1:])
+            if h % 2:
+                # the killed set creates a NEW key (new file, possibly new directories)
+                k = ctx.rng.choice(["n/x/a", "n/a", "fresh"])
+                sets1 = gen_sets(ctx.rng, ctx.rng.randrange(0, 2), keys) + [(k, v2)]
+                phase2 = [(k, v2)] + gen_sets(ctx.rng, 1, ["n/x/b", "n/b"])
             runs += kill_history(ctx, drv, sets1, phase2, 16 if h % 2 else None, model_sk, bool(flag), cap,
                                  R=ctx.rng.choice(["", "r1"]))
-        small = [r for r in runs if not r.get("big")]
+        # error paths: one transient OSError at each file-system operation of a set of a new key, then a retry
+        for h in range(1 if quick else 4):
+            k = ctx.rng.choice(["n/x/a", "n/a", "fresh", "p/new"])
+            sets0 = gen_sets(ctx.rng, ctx.rng.randrange(0, 2), ["a", "p/a"])
+            follow = gen_sets(ctx.rng, ctx.rng.randrange(0, 2), ["n/x/b", "a"])
+            runs += fault_history(ctx, drv, sets0, (k, gen_value(ctx.rng)), follow, 16 if h % 2 else None, model_sk,
+                                  bool(flag), cap, R=ctx.rng.choice(["", "r1"]))
+        # two-thread schedules: set A (new key) parked before each of its file-system calls while set B completes
+        for h in range(2 if quick else 8):
+            A = (ctx.rng.choice(["n/x/a", "n/a", "p/new"]), gen_value(ctx.rng))
+            sets0 = [("a", gen_value(ctx.rng)), ("p/a", gen_value(ctx.rng))]
+            B = [("a", gen_value(ctx.rng)), ("p/a", gen_value(ctx.rng)), (os.path.dirname(A[0]) + "/b", gen_value(ctx.rng)),
+                 ("other/b", gen_value(ctx.rng))][(h + ctx.rng.randrange(2)) % 4]
+            schedule_history(ctx, sets0, A, B, None, cap, R=ctx.rng.choice(["", "r1"]))
+        small = [r for r in runs if not r.get("big") and not r.get("known")]
+        ctx.bump("runs-not-sent-to-kernel-known-finding", len([r for r in runs if r.get("known")]))
         if small:
             regular = [r for r in small if r.get("sets") is not None]
             composite = [r for r in small if r.get("sets") is None]
@@ -1389,7 +1628,16 @@ def replay(ctx, case):
     sk, flag = setup(ctx)
     drv = Driver("c17") if getattr(ctx, "driver_ok", True) else None
     try:
-        if c.get("kind") == "kill-history":
+        if c.get("kind") == "fault-history":
+            rs = fault_history(ctx, drv, [(k, v) for k, v in c["sets0"]], tuple(c["target"]),
+                               [(k, v) for k, v in c["follow"]], c.get("bufsize"), sk, bool(flag), 100000,
+                               R=c.get("root", ""), only=(c["boundary"], c["mode"]))
+            if rs:
+                kernel_obligations(ctx, [r for r in rs if not r.get("known")] or rs, sk, bool(flag))
+        elif c.get("kind") == "schedule":
+            schedule_history(ctx, [(k, v) for k, v in c["sets0"]], tuple(c["A"]), tuple(c["B"]), c.get("bufsize"), 100000,
+                             R=c.get("root", ""), only=c["boundary"])
+        elif c.get("kind") == "kill-history":
             rs = kill_history(ctx, drv, [(k, v) for k, v in c["sets1"]], [(k, v) for k, v in c["phase2"]],
                               c.get("bufsize"), sk, bool(flag), 100000, boundaries=[c["boundary"]], R=c.get("root", ""))
             if rs:
